@@ -64,7 +64,7 @@ def run(chk):
     b = core.standard_build(chk)
     model = core.Model() if b.modelrun_ok else None
     full = chk.tier == 'thorough' or bool(b.drift) or not b.proof_ok
-    n = 400 if full else 45
+    n = core.budget(chk, full, 60, 400)
     chk.rule = ('generated documents (1-4 spines, nested splits and joins, unknown spine types every 4th) x EVERY subset of the '
                 'spine ids and EVERY subset of the spine types present, out-of-range ids, unknown types, 6 combined selections, '
                 'and the spine_types query on 10 header lists; non-trivial = distinct (text, options)')
